@@ -1296,3 +1296,43 @@ impl Vm {
         )
     }
 }
+
+/// Verification hook (property C09 of /verif): read-only copy of the compiled program and of the
+/// machine state. Nothing here is used by numbat itself.
+#[cfg(feature = "verif")]
+impl Vm {
+    pub(crate) fn verif_c09_parts(&self) -> crate::verif::c09::VmParts {
+        crate::verif::c09::VmParts {
+            chunks: self
+                .bytecode
+                .iter()
+                .map(|(name, code, _)| (name.to_string(), code.clone()))
+                .collect(),
+            current_chunk_index: self.current_chunk_index,
+            constants: self.constants.clone(),
+            struct_infos: self
+                .struct_infos
+                .iter()
+                .map(|(name, info)| {
+                    (
+                        name.to_string(),
+                        info.name.to_string(),
+                        info.fields.keys().map(|k| k.to_string()).collect(),
+                    )
+                })
+                .collect(),
+            n_prefixes: self.prefixes.len(),
+            n_strings: self.strings.len(),
+            n_unit_information: self.unit_information.len(),
+            ffi_callables: self.ffi_callables.keys().map(|k| k.to_string()).collect(),
+            n_ffi_call_args: self.ffi_call_args.len(),
+            frames: self
+                .frames
+                .iter()
+                .map(|f| (f.function_idx, f.ip, f.fp))
+                .collect(),
+            stack: self.stack.clone(),
+            last_result: self.last_result.clone(),
+        }
+    }
+}
